@@ -1,0 +1,23 @@
+//go:build verif
+
+package keeper
+
+// Contracts for the deductive verifier in /verif (govc). Comment-only; compiled only with -tags verif.
+
+// ---- C34: a voucher denomination is recorded under the hash of exactly its full path
+
+//@ contract (*Keeper).SetDenom
+//@   modifies world(ctx)
+//@   let key = str(types.DenomKey) + sha256(denom.Path())
+//@   ensures keyed_by_path_hash: get(kv(ctx, k.storeService), key) == marshalOf(denom)
+//@   ensures present: has(kv(ctx, k.storeService), key)
+//@   ensures one_key: onlyKeyChanged(old(world(ctx)), world(ctx), key)
+
+//@ contract (*Keeper).GetDenom
+//@   let key = str(types.DenomKey) + str(denomHash)
+//@   let stored = get(kv(ctx, k.storeService), key)
+//@   ensures found_iff_nonempty: result1 == (has(kv(ctx, k.storeService), key) && len(stored) > 0)
+//@   ensures decodes_stored_bytes: result1 ==> result0 == unmarshalAs(stored, types.Denom)
+
+//@ contract (*Keeper).HasDenom
+//@   ensures result == has(kv(ctx, k.storeService), str(types.DenomKey) + str(denomHash))
